@@ -365,6 +365,9 @@ class Tensor:
         if not isinstance(grad, Tensor):
             raise ValueError("Gradient parameter must be a Tensor")
         
+        if not self.matches_shape(grad):
+            raise RuntimeError(f"Attempt to assign grad ({grad.shape}) to  a Tensor ({self.shape}) that has a different shape")
+        
         # Topological order all of the children in the graph 
         # (init gradients for those who are going to need it)
         ordered_nodes = []
@@ -382,7 +385,12 @@ class Tensor:
         visit_node(self)
 
         # Go one tensor at a time and apply the chain rule to get its gradient
-        self.grad = grad
+        if self.is_leaf and self._grad is not None:
+            # a leaf used as root accumulates like any other leaf
+            self._grad = self._grad + grad.data
+        else:
+            # copy: the caller's array must not become a buffer later sweeps write into
+            self._grad = grad.data.copy()
         for i, node in enumerate(reversed(ordered_nodes)):
             if node.grad_fn is not None:
                 #print(node.grad_fn)
